@@ -52,6 +52,9 @@ def cases(ctx):
     n = 400 if ctx.tier == "quick" else 30000
     for i in range(60):
         out.append({"id": f"fix{i}", "kind": "load", "i": i, "fixed": True})
+    # deterministic corpus aimed at one mechanism: a box smaller than a coarse leaf, many small CPU domains
+    for i in range(120 if ctx.tier == "quick" else 4000):
+        out.append({"id": f"adv{i}", "kind": "load", "i": i, "fixed": True, "adversarial": True})
     for i in range(n):
         out.append({"id": f"r{i}", "kind": "load", "i": i})
     m = 60 if ctx.tier == "quick" else 3000
@@ -142,7 +145,7 @@ def make_spec(rng, lowdim=False):
     return spec
 
 
-def make_box(rng, model, exp, res):
+def make_box(rng, model, exp, res, adversarial=False):
     """interval predicates on a random subset of axes, centred on a leaf centre"""
     sp = model.spec
     ndim = sp["ndim"]
@@ -156,6 +159,11 @@ def make_box(rng, model, exp, res):
     c = exp["pos"][j]
     axes = [d for d in range(ndim) if rng.random() < 0.75] or [int(rng.integers(0, ndim))]
     size_mode = rng.choice(["quarter-finest", "finest", "few-finest", "leaf", "large", "whole"])
+    if adversarial:
+        j = int(coarse[int(rng.integers(0, len(coarse)))])
+        c = exp["pos"][j]
+        axes = list(range(ndim))
+        size_mode = rng.choice(["quarter-finest", "finest"])
     preds = []
     small = True
     for d in axes:
@@ -181,7 +189,7 @@ def make_box(rng, model, exp, res):
         up = max(w * float(rng.uniform(0.3, 0.7)), need if side > 0 else 0.0) + 1e-6 * h
         dn = max(w - up, need if side < 0 else 0.0) + 1e-6 * h
         lo, hi = c[d] - dn, c[d] + up
-        edge = rng.random()
+        edge = rng.random() if not adversarial else 1.0
         if edge < 0.1:
             lo = 0.0 if rng.random() < 0.5 else -0.3
             res.tag("touches-domain-edge")
@@ -200,18 +208,27 @@ def _load(case, ctx, res):
     rng = (np.random.default_rng(np.random.SeedSequence([20240204, 4, case["i"]])) if case.get("fixed")
            else ctx.rng(case["i"]))
     lowdim = (case["i"] % 10 == 9) if case.get("fixed") else rng.random() < 0.12
+    adv = bool(case.get("adversarial"))
+    if adv:
+        rng = np.random.default_rng(np.random.SeedSequence([20240204, 44, case["i"]]))
+        lowdim = False
     spec = make_spec(rng, lowdim)
+    if adv:
+        spec.update(ncpu=int(rng.choice([8, 13, 24, 32])), levelmin=int(rng.choice([1, 1, 2])), nboundary=0, nxyz=[1, 1, 1],
+                    ordering="hilbert", bound_style=str(rng.choice(["octs", "equal", "tiny", "random"])),
+                    style=str(rng.choice(["needle", "random"])), refine_prob=float(rng.uniform(0.1, 0.4)), max_octs=300)
+        spec["levelmax"] = spec["levelmin"] + int(rng.integers(2, 4))
     model = rs.build(spec)
     preds0 = []
     L = None
-    if rng.random() < 0.25:
+    if rng.random() < 0.25 and not adv:
         k = int(rng.integers(1, spec["levelmax"] + 1))
         preds0.append({"var": "level", "op": "<=", "value": k})
         L = sel.level_cap(preds0, spec["levelmax"])
     exp_all = rs.expected_mesh(model, lmax=L)
-    box, size_mode = make_box(rng, model, exp_all, res)
+    box, size_mode = make_box(rng, model, exp_all, res, adversarial=adv)
     preds = preds0 + box
-    if rng.random() < 0.3:
+    if rng.random() < 0.3 and not adv:
         col = sel.model_column(model, exp_all, "density")
         thr = float(np.sort(col)[int(rng.integers(0, len(col)))]) * (1 + 1e-3)
         preds.append({"var": "density", "op": ">", "value": thr, "unit": "g/cm**3"})
